@@ -38,6 +38,7 @@ class FnPrinter:
         self.canary_no = 0
         self.is_ctor = node['kind'] == 'CXXConstructorDecl'
         self.ret_ref = False
+        self.uncontracted_loops = 0
 
     # ------------------------------------------------------------- helpers
     def fail(self, n, why):
@@ -533,6 +534,13 @@ class FnPrinter:
                 self.fail(d, 'declaration kind in DeclStmt')
 
     def var_decl(self, d, out):
+        mark = len(out)
+        self.var_decl_(d, out)
+        nm = self.local_names.get(d['id'])
+        if nm and len(out) > mark and d.get('storageClass') != 'static':
+            out[-1] += ' /*@dirty %s*/' % nm
+
+    def var_decl_(self, d, out):
         t = self.tr.tparse(d['type'])
         if d.get('storageClass') == 'static':
             g = self.tr.use_global(d, prefix=self.cname + '__')
@@ -626,9 +634,9 @@ class FnPrinter:
 
     def loop_contract(self):
         self.loop_no += 1
-        if self.tr.hooks:
-            return self.tr.hooks.loop_contract(self.cname, self.loop_no)
-        return []
+        lc = self.tr.hooks.loop_contract(self.cname, self.loop_no) if self.tr.hooks else []
+        if not lc: self.uncontracted_loops += 1
+        return ['/*@loop %d*/' % self.loop_no] + lc
 
     def st_WhileStmt(self, n, out):
         inner = [c for c in n.get('inner', []) if c]
@@ -684,8 +692,37 @@ class FnPrinter:
     def st_SwitchStmt(self, n, out):
         inner = [c for c in n.get('inner', []) if c]
         c, body = inner[-2], inner[-1]
+        self.switch_no = getattr(self, 'switch_no', 0) + 1
+        sl = self.tr.switch_slice.get((self.cname, self.switch_no))
         out.append(self.ind() + 'switch (%s)' % self.ex(c))
-        self.block(body, out)
+        if sl is None or body.get('kind') != 'CompoundStmt':
+            self.block(body, out); return
+        # switch slicing (DESIGN 1.2 rule 2): only the arm groups of this slice keep their bodies, every other arm is
+        # cut with assume(0).  Each arm group is in exactly one slice, so the slices together cover every path.
+        idx, nslices = sl
+        out.append(self.ind() + '{'); self.indent += 1
+        group = -1; keep = True
+        for s in body.get('inner', []):
+            if s.get('kind') in ('CaseStmt', 'DefaultStmt'):
+                group += 1
+                keep = (group % nslices) == idx
+                if keep:
+                    self.stmt(s, out)
+                else:
+                    # print only the labels of the chain
+                    x = s
+                    while x is not None and x.get('kind') in ('CaseStmt', 'DefaultStmt'):
+                        xi = [k for k in x.get('inner', []) if k]
+                        if x['kind'] == 'CaseStmt':
+                            out.append(self.ind() + 'case %s:' % self.ex(xi[0])); nxt = xi[-1] if len(xi) > 1 else None
+                        else:
+                            out.append(self.ind() + 'default:'); nxt = xi[0] if xi else None
+                        x = nxt
+                    out.append(self.ind() + '  __CPROVER_assume(0); /* arm verified in another slice */')
+            elif keep:
+                self.stmt(s, out)
+        self.tr.switch_groups[(self.cname, self.switch_no)] = group + 1
+        self.indent -= 1; out.append(self.ind() + '}')
 
     def st_CaseStmt(self, n, out):
         inner = [c for c in n.get('inner', []) if c]
@@ -739,5 +776,11 @@ class FnPrinter:
         lines = head + ['{']
         for tdecl in self.temps:
             lines.append('  %s;' % tdecl)
+        if self.uncontracted_loops:
+            # dfcc (cbmc 6.11) checks assignments to locals inside loops that have no contract against the write set
+            # but only records locals whose address is taken; taking the address is semantically neutral.
+            out = [re.sub(r"/\*@dirty (\w+)\*/", r"(void)&\1;", l) for l in out]
+            for p in tr.fn_params(node):
+                if p.get('name'): lines.append('  (void)&%s;' % self.local_names.get(p['id'], p['name']))
         lines += out + ['}']
         return '\n'.join(lines)
